@@ -75,7 +75,9 @@ class GhostStream:
         self.pos += 1
         DRAW_LOG.append((self.sid, pos, what, size))
         if size is None:
-            return _draw_symbol(self.sid, pos, 0, what)
+            v = _draw_symbol(self.sid, pos, 0, what)
+            self._bounds([v], what)
+            return v
         if isinstance(size, (tuple, list)):
             shape = tuple(int(s) for s in size)
         else:
@@ -86,7 +88,19 @@ class GhostStream:
         out = NP.zeros((n,), NP.float64)
         for k in range(n):
             out.a[k] = _draw_symbol(self.sid, pos, k, what)
+        self._bounds(out.a.tolist(), what)
         return out.reshape(shape)
+
+    @staticmethod
+    def _bounds(vals, what):
+        if what != "random":
+            return
+        from .paths import current
+        cur = current(optional=True)
+        if cur is not None:
+            for v in vals:
+                cur.assume_library(v >= 0, "Generator.random: 0 <= r")
+                cur.assume_library(v < 1, "Generator.random: r < 1")
 
     # numpy Generator / RandomState API used by quara
     def random(self, size=None):
